@@ -10,6 +10,6 @@ for a in "$@"; do
 done
 case "${CARGO_PKG_NAME:-}" in
   gixsim|gix-features|gix-odb|gix-pack|gix-ref|gix-lock|gix-tempfile|gix-fs|gix-worktree-stream|gix-index|gix-utils)
-    exec "$rustc" "$@" -C passes=sancov-module -C llvm-args=-sanitizer-coverage-level=3 -C llvm-args=-sanitizer-coverage-trace-pc-guard ;;
+    exec "$rustc" "$@" -C passes=sancov-module -C llvm-args=-sanitizer-coverage-level=3 -C llvm-args=-sanitizer-coverage-trace-pc-guard -C llvm-args=-sanitizer-coverage-prune-blocks=0 ;;
   *) exec "$rustc" "$@" ;;
 esac
